@@ -432,6 +432,9 @@ def main():
         elif args[i] == "--only":
             only = args[i + 1]
             i += 2
+        elif args[i] == "--match":
+            only = re.compile(args[i + 1])
+            i += 2
         elif args[i] == "--jobs":
             jobs = int(args[i + 1])
             i += 2
@@ -449,7 +452,7 @@ def main():
     reg = load_registry()
     sel = [h for h in reg.values() if (prop in h["props"] or prop == "ALL") and (tier == "thorough" or h["tier"] == "quick")]
     if only:
-        sel = [h for h in sel if h["name"] == only]
+        sel = [h for h in sel if (only.search(h["name"]) if hasattr(only, "search") else h["name"] == only)]
     sel.sort(key=lambda h: -h["timeout"])
     if not sel:
         print("no harness registered for %s (%s)" % (prop, tier))
@@ -466,7 +469,7 @@ def main():
         return 2
     if jobs is None:
         heavy = max(h["mem"] for h in sel)
-        jobs = max(1, min(16, 56 // max(heavy, 1)))
+        jobs = max(1, min(8, 80 // max(heavy, 1)))
     results = []
     with cf.ThreadPoolExecutor(max_workers=jobs) as ex:
         futs = {ex.submit(decide_harness, h, tier, prop): h for h in sel}
